@@ -244,8 +244,9 @@ def run(ctx, rep):
                 probs.append("the counted index symbols are not the ones emitted after the symbol")
         rep.ob("R4", not probs, node, owner, construct="suffix of %s" % tmpl, how="len(Q symbols), and exactly those symbols follow",
                witness="; ".join(probs) or None, nontrivial=True, key="arity/%s" % tmpl)
-    for name in ("_PROCESS_RING_CACHE", "_PROCESS_BRANCH_CACHE"):
-        tab = fo.global_value("selfies.grammar_rules", name)
+    from rules.symlang import symbol_table
+    for name, kind_ in (("_PROCESS_RING_CACHE", "ring"), ("_PROCESS_BRANCH_CACHE", "branch")):
+        tab = symbol_table(ctx, kind_)
         bad = [k for k, v in tab.items() if not (k[-2].isdigit() and int(k[-2]) == v[1])]
         rep.ob("R4", not bad, None, None, loc="selfies/grammar_rules.py", construct="%s: suffix digit == number of index symbols read" % name,
                how="folded table", witness=None if not bad else "entries %s read a number of symbols different from their suffix" % bad[:3], key="table/" + name)
@@ -371,7 +372,7 @@ def check_bond_symbol_table(ctx, rep):
     import re as _re
     shape = _re.compile(r"^\[\{\}([A-Za-z]+)\{\}\]$")
     _encf, frag = fragment_printer(ctx)
-    tabs = {"Ring": fo.global_value("selfies.grammar_rules", "_PROCESS_RING_CACHE"), "Branch": fo.global_value("selfies.grammar_rules", "_PROCESS_BRANCH_CACHE")}
+    tabs = {"Ring": __import__("rules.symlang", fromlist=["x"]).symbol_table(ctx, "ring"), "Branch": __import__("rules.symlang", fromlist=["x"]).symbol_table(ctx, "branch")}
     for owner, node, tmpl, args in token_templates(ctx, frag):
         m = shape.match(tmpl)
         if not m or m.group(1) not in tabs or not isinstance(args[0], ast.Call):
